@@ -10,7 +10,7 @@ from common import driver, proof_stage
 import subgen
 from c15 import run_calls, stats
 
-MODULES = ["CobyqaVerif.Props.C16", "CobyqaVerif.Props.C15Loop", "CobyqaVerif.Props.C15Improve", "CobyqaVerif.Props.C16Cauchy", "CobyqaVerif.Props.C16CauchyDir", "CobyqaVerif.Props.C16Spider", "CobyqaVerif.Props.C16Ntcg", "CobyqaVerif.Props.C16NtcgImprove", "CobyqaVerif.Props.C16Ctcg"]
+MODULES = ["CobyqaVerif.Props.C16", "CobyqaVerif.Props.C15Loop", "CobyqaVerif.Props.C15Improve", "CobyqaVerif.Props.C16Cauchy", "CobyqaVerif.Props.C16CauchyDir", "CobyqaVerif.Props.C16Spider", "CobyqaVerif.Props.C16Ntcg", "CobyqaVerif.Props.C16NtcgImprove", "CobyqaVerif.Props.C16Ctcg", "CobyqaVerif.Props.C16TcgCauchy"]
 LEVEL = "proof"
 OWN = ("model-increased", "violation-increased", "magnitude-decreased")
 EPS = subgen.EPS
@@ -398,7 +398,7 @@ def run(chk, rng, replay=None):
     nstat, nmism = (ntcg_correspondence(rng, 120, nmax=3) if chk.tier == "quick" else ntcg_correspondence(rng, 600, nmax=4)) if replay is None else ({}, [])
     chk.coverage["normal_solver_loop_model_correspondence"] = nstat
     cmism = cmism + smism + fmism + nmism
-    chk.assumptions += ["kernel theorems are exact-arithmetic; the loops of the solvers are covered by the sampled calls only",
+    chk.assumptions += ["the theorems are about exact (ordered-field) arithmetic with np.sqrt, _alpha_tr and the QR projection as oracles meeting their stated specifications; rounding is covered by the sampled calls only",
                         "the projected-gradient Cauchy reference is computed by the harness (exact rational model values, step shortened by 1e-9 to stay feasible)"]
     reported = 0
     for c, s, what, tiny in fails:
